@@ -41,7 +41,9 @@ class FuncSpec(object):
     self.modifies = list(d.get('modifies', ()))
     self.raises = dict(d.get('raises', {}))  # exc class -> dict(when=expr, ensures=[...])
     self.loops = dict(d.get('loops', {}))
-    self.yields = dict(d.get('yields', {}))
+    self.yields = list(d.get('yields', ()))   # [{'at': '<source text of the yielding call>', 'assert': [...], 'havoc': [...], 'rely': [...]}]
+    self.may_yield = d.get('may_yield', False)   # a call of this function is itself a scheduling point for its caller
+    self.conc = d.get('conc', None)               # name of the CONCURRENCY entry governing the receiver's shared state
     self.pure = d.get('pure', False)
     self.inline = d.get('inline', False)
     self.locals = dict((k, parse_type(v)) for k, v in d.get('locals', {}).items())
@@ -82,6 +84,7 @@ class Registry(object):
     self.externs = {}
     self.predicates = {}
     self.modules = {}
+    self.concurrency = {}
 
   def load_package(self, pkgname='specs'):
     pkg = importlib.import_module(pkgname)
@@ -105,6 +108,10 @@ class Registry(object):
       if k in self.externs:
         raise ValueError('duplicate extern spec %s' % k)
       self.externs[k] = ExternSpec(k, d)
+    for k, d in getattr(mod, 'CONCURRENCY', {}).items():
+      if k in self.concurrency:
+        raise ValueError('duplicate concurrency entry %s' % k)
+      self.concurrency[k] = d
     for k, d in getattr(mod, 'PREDICATES', {}).items():
       if k in self.predicates:
         raise ValueError('duplicate predicate %s' % k)
